@@ -1,5 +1,6 @@
 SPECIFICATION Spec
 CONSTANTS NumIter = 6
+ MaxRuns = 2
  Rule = "fixed"
 INVARIANT ConvergedOnlyIfCriteria
 INVARIANT FaultFlagged
